@@ -4,7 +4,7 @@ S=/verif/seeded/$1; ID=$2; TIER=${3:-quick}
 git -C /repo status --porcelain --untracked-files=no | grep -q . && { echo "/repo dirty"; exit 2; }
 git -C /repo apply $S/patch.diff || exit 2
 cd /verif && ./check $ID --tier $TIER > /tmp/seed/check_$1_$ID.log 2>&1; RC=$?
-git -C /repo checkout -q -- .
+git -C /repo checkout -q HEAD -- .
 echo "$1 vs $ID ($TIER): exit $RC; $(grep -c '^VIOLATION' /tmp/seed/check_$1_$ID.log) violation line(s)"
 grep -A1 '^VIOLATION' /tmp/seed/check_$1_$ID.log | head -4
 [ $RC = 2 ] && tail -5 /tmp/seed/check_$1_$ID.log
